@@ -22,12 +22,18 @@ SIZ = {1: 1, 2: 1, 3: 2, 4: 4, 5: 8}
 def enc_val(ty, v):
     import struct
     c, n = ty[0], int(ty[1:4])
+    if c in "UEIL" and (isinstance(v, bool) or not isinstance(v, int)):
+        raise ValueError("int expected")
     if c in "UEL":
         return v.to_bytes(n, "little")
     if c == "I":
         return v.to_bytes(n, "little", signed=True)
     if c == "X":
+        if not isinstance(v, bytes) or len(v) != n:
+            raise ValueError("X value")
         return v
+    if isinstance(v, bool) or not isinstance(v, (int, float)):
+        raise ValueError("numeric value expected")
     if c == "R":
         return struct.pack("<f" if n == 4 else "<d", v)
     raise ValueError(ty)
@@ -80,6 +86,9 @@ def run(ctx):
                 name, (kid, ty) = rng.choice(db)
                 v = cfgval(rng, ty)
                 body += kid.to_bytes(4, "little") + enc_val(ty, v)
+                if ty == "R004":      # the value as representable at the key's storage width
+                    import struct
+                    v = struct.unpack("<f", struct.pack("<f", v))[0]
                 exp.append((kid, name, v, ty))
             else:
                 code = rng.choice([1, 2, 3, 4, 5])
@@ -157,9 +166,21 @@ def run(ctx):
         for kid, name, v, ty in exp:
             nm = name if len(ids.get(kid, [name])) == 1 or not name.startswith("CFG_BDS") else ids[kid][0]
             want[nm] = v
-        if got != want:
-            ctx.fail("cfgval-parse-attrs", inp, str(sorted(want.items()))[:200], str(sorted(got.items()))[:200])
+        if not same_map(got, want):
+            only_w = {k: v for k, v in want.items() if k not in got or not same_val(got[k], v)}
+            only_g = {k: v for k, v in got.items() if k not in want or not same_val(want[k], v)}
+            ctx.fail("cfgval-parse-attrs", inp, str(sorted(only_w.items()))[:300], str(sorted(only_g.items()))[:300])
     ctx.evaluations += len(cases) + len(frames) + len(db)
+
+
+def same_val(a, b):
+    if isinstance(a, float) and isinstance(b, float):
+        return a == b or (a != a and b != b)
+    return a == b and type(a) == type(b) or (isinstance(a, bool) != isinstance(b, bool) and a == b)
+
+
+def same_map(a, b):
+    return a.keys() == b.keys() and all(same_val(a[k], b[k]) for k in a)
 
 
 def key_id(k):
